@@ -266,6 +266,30 @@ func TestGovcReplayLedger(t *testing.T) {
 			l2.Close()
 			os.RemoveAll(dir)
 		}
+	case "prefix-query-after-overwrite-and-delete":
+		// block 1 commits three keys with the prefix; block 2 overwrites one and deletes another: the prefix query must
+		// answer exactly the latest values of the keys that are still live
+		l.SetState(a, []byte("p-1"), []byte("old1"), nil)
+		l.SetState(a, []byte("p-2"), []byte("old2"), nil)
+		l.SetState(a, []byte("p-3"), []byte("keep3"), nil)
+		l.Finalise(true)
+		accounts, r1 := l.FlushDirtyData()
+		if err := l.Commit(1, accounts, r1); err != nil {
+			fmt.Println("REPLAY-NOT-CONFIRMED commit failed:", err)
+			return
+		}
+		l.SetState(a, []byte("p-1"), []byte("new1"), nil)
+		l.SetState(a, []byte("p-2"), nil, nil)
+		ok, vals := l.QueryByPrefix(a, "p-")
+		var got []string
+		for _, v := range vals {
+			got = append(got, fmt.Sprintf("%q", v))
+		}
+		fmt.Printf("replay: p-1 overwritten, p-2 deleted, p-3 untouched: QueryByPrefix(\"p-\") = ok %v, %d values [%s] (expected exactly \"keep3\" and \"new1\")\n", ok, len(vals), strings.Join(got, " "))
+		if len(vals) != 2 || !((string(vals[0]) == "keep3" && string(vals[1]) == "new1") || (string(vals[0]) == "new1" && string(vals[1]) == "keep3")) {
+			fmt.Println("REPLAY-CONFIRMED a prefix query does not answer exactly the values of the live keys with the prefix")
+			return
+		}
 	case "commit-after-a-crash-before-pruning":
 		// 13 blocks persisted; the pruning write of block 13 (the second durable write of its commit) is lost: the
 		// stored lower end of the journal window stays one block behind. The node comes back and must be able to
